@@ -34,6 +34,7 @@ class Recorder(RankAggAlgorithm):
 
 
 class ParConsSuite(Suite):
+    seasoned_rate = 0.1     # share of the cases run on algorithm objects that have served before (algos.seasoned)
     escalate_cap = 120
     names_rate, past_rate = 0.08, 0.06     # hostile element names / datasets with a past (gen.decorate_cases)
     name = "parcons"
@@ -58,6 +59,16 @@ class ParConsSuite(Suite):
             cases.append({"s": rng.choice([gen.UNIFYING, gen.UNIFYING, gen.UNIFYING_HALF]), "D": isolated_member_dataset(rng)})
         for _ in range(6 if tier == "quick" else 40):       # two hard components of sizes 4 and 3 (no global brute force: 7 elements)
             cases.append({"s": rng.choice([gen.UNIFYING, gen.GENERIC, gen.EXTENDED]), "D": two_cycles_dataset(rng)})
+        for _ in range(120 if tier == "quick" else 1200):      # four strict rankings: many pairs are evenly split (no arc either way)
+            n = rng.choice([4, 5, 5, 5, 6]) if tier == "quick" else rng.randint(4, 6)
+            D = []
+            for _ in range(4):
+                p = list(range(n))
+                rng.shuffle(p)
+                D.append([[e] for e in p])
+            if rng.random() < 0.5:
+                D[2] = [list(b) for b in D[1]]
+            cases.append({"s": rng.choice([gen.UNIFYING, gen.UNIFYING, gen.PSEUDO, gen.GENERIC]), "D": D})
         for _ in range(160 if tier == "quick" else 2500):
             nmax = rng.choice([4, 5, 6, 6]) if tier == "quick" else rng.choice([5, 6, 6, 6])
             cases.append({"s": opt_scheme(rng), "D": layered_dataset(rng, nmax, 5) if rng.random() < 0.7 else gen.random_dataset(rng, nmax, 5)})
@@ -75,6 +86,9 @@ class ParConsSuite(Suite):
             orig = parcons_module._exact_algorithm_for_sub_problems
             parcons_module._exact_algorithm_for_sub_problems = lambda: Recorder(orig(), False, log)
             try:
+                if case.get("seasoned"):
+                    seasoned(alg, case["D"], case["s"])
+                    del log[:]
                 cons = alg.compute_consensus_rankings(ds, sc, True)
                 out["runs"].append({"bound": bound, "cons": lst(cons.consensus_rankings[0]), "n_cons": len(cons.consensus_rankings),
                                     "flag": bool(cons.necessarily_optimal), "weak": groups(cons.features[ConsensusFeature.WEAK_PARTITIONING]),
